@@ -162,24 +162,47 @@ func WriteObjectWithSize
   ensures forall i Int :: i < old(sel(io.wlen, writer)) ==> sel(sel(io.wdata, writer), i) == sel(sel(old(io.wdata), writer), i)
   ensures r0 == nil ==> sel(io.wlen, writer) >= old(sel(io.wlen, writer)) + (lenType == serializer.SeriLengthPrefixTypeAsByte ? 1 : (lenType == serializer.SeriLengthPrefixTypeAsUint16 ? 2 : (lenType == serializer.SeriLengthPrefixTypeAsUint32 ? 4 : 8))) && sizeprefix(sel(io.wdata, writer), old(sel(io.wlen, writer)), lenType) == sel(io.wlen, writer) - old(sel(io.wlen, writer)) - (lenType == serializer.SeriLengthPrefixTypeAsByte ? 1 : (lenType == serializer.SeriLengthPrefixTypeAsUint16 ? 2 : (lenType == serializer.SeriLengthPrefixTypeAsUint32 ? 4 : 8)))
 
--- seeking helpers over the stream model (the position of a written stream is io.wlen)
+-- seeking helpers over the stream model: the position of a read stream is io.rpos, of a written stream io.wlen
 func Offset
   requires seeker != nil
-  modifies ghost(io.wlen)
-  ensures err == nil ==> offset == old(sel(io.wlen, seeker))
-  ensures err == nil ==> io.wlen == old(io.wlen)
+  modifies ghost(io.wlen), ghost(io.rpos)
+  ensures err == nil && !isreader(seeker) ==> offset == old(sel(io.wlen, seeker))
+  ensures err == nil && isreader(seeker) ==> offset == old(sel(io.rpos, seeker))
+  ensures err == nil ==> io.wlen == old(io.wlen) && io.rpos == old(io.rpos)
+  ensures forall x Int :: x != seeker ==> sel(io.wlen, x) == sel(old(io.wlen), x) && sel(io.rpos, x) == sel(old(io.rpos), x)
+  ensures isreader(seeker) ==> io.wlen == old(io.wlen)
+  ensures !isreader(seeker) ==> io.rpos == old(io.rpos)
 
 func Skip
   requires seeker != nil
-  modifies ghost(io.wlen)
-  ensures forall x Int :: x != seeker ==> sel(io.wlen, x) == sel(old(io.wlen), x)
-  ensures err == nil ==> newOffset == old(sel(io.wlen, seeker)) + offset && sel(io.wlen, seeker) == newOffset
+  modifies ghost(io.wlen), ghost(io.rpos)
+  ensures forall x Int :: x != seeker ==> sel(io.wlen, x) == sel(old(io.wlen), x) && sel(io.rpos, x) == sel(old(io.rpos), x)
+  ensures isreader(seeker) ==> io.wlen == old(io.wlen)
+  ensures !isreader(seeker) ==> io.rpos == old(io.rpos)
+  ensures err == nil && !isreader(seeker) ==> newOffset == old(sel(io.wlen, seeker)) + offset && sel(io.wlen, seeker) == newOffset && io.rpos == old(io.rpos)
+  ensures err == nil && isreader(seeker) ==> newOffset == old(sel(io.rpos, seeker)) + offset && io.wlen == old(io.wlen)
+  ensures err == nil && isreader(seeker) && 0 <= newOffset && newOffset <= sel(io.rlen, seeker) ==> sel(io.rpos, seeker) == newOffset
 
 func GoTo
   requires seeker != nil
-  modifies ghost(io.wlen)
-  ensures forall x Int :: x != seeker ==> sel(io.wlen, x) == sel(old(io.wlen), x)
-  ensures err == nil ==> newOffset == offset && sel(io.wlen, seeker) == offset
+  modifies ghost(io.wlen), ghost(io.rpos)
+  ensures forall x Int :: x != seeker ==> sel(io.wlen, x) == sel(old(io.wlen), x) && sel(io.rpos, x) == sel(old(io.rpos), x)
+  ensures isreader(seeker) ==> io.wlen == old(io.wlen)
+  ensures !isreader(seeker) ==> io.rpos == old(io.rpos)
+  ensures err == nil ==> newOffset == offset
+  ensures err == nil && !isreader(seeker) ==> sel(io.wlen, seeker) == offset && io.rpos == old(io.rpos)
+  ensures err == nil && isreader(seeker) ==> io.wlen == old(io.wlen)
+  ensures err == nil && isreader(seeker) && 0 <= offset && offset <= sel(io.rlen, seeker) ==> sel(io.rpos, seeker) == offset
+
+-- PeekSize: the size prefix at the current position, and the stream is back where it was
+func PeekSize
+  requires reader != nil && isreader(reader)
+  requires (lenType == serializer.SeriLengthPrefixTypeAsByte || lenType == serializer.SeriLengthPrefixTypeAsUint16 || lenType == serializer.SeriLengthPrefixTypeAsUint32 || lenType == serializer.SeriLengthPrefixTypeAsUint64)
+  modifies ghost(io.rpos), ghost(io.wlen)
+  ensures io.wlen == old(io.wlen)
+  ensures forall x Int :: x != reader ==> sel(io.rpos, x) == sel(old(io.rpos), x)
+  ensures r1 == nil ==> sel(io.rpos, reader) == old(sel(io.rpos, reader))
+  ensures r1 == nil && (lenType != serializer.SeriLengthPrefixTypeAsUint64 || sizeprefix(sel(io.rdata, reader), old(sel(io.rpos, reader)), lenType) <= MaxInt64) ==> r0 == sizeprefix(sel(io.rdata, reader), old(sel(io.rpos, reader)), lenType)
 
 -- WriteCollection: a placeholder for the element count, the elements (written by the callback, which reports how many),
 -- then the count is patched into the placeholder and the stream is left where the callback left it, so that whatever
@@ -188,12 +211,12 @@ func GoTo
 global cbcount Int      -- what the callback reported (ghost)
 global cbend Int        -- the position at which the callback left the stream (ghost)
 func WriteCollection
-  requires writer != nil && typeof(writer) != typeid(*bytes.Buffer) && writeCallback != nil
+  requires writer != nil && typeof(writer) != typeid(*bytes.Buffer) && writeCallback != nil && !isreader(writer)
   requires (lenType == serializer.SeriLengthPrefixTypeAsByte || lenType == serializer.SeriLengthPrefixTypeAsUint16 || lenType == serializer.SeriLengthPrefixTypeAsUint32 || lenType == serializer.SeriLengthPrefixTypeAsUint64)
   callback writeCallback() (n, e)
     modifies ghost(io.wdata), ghost(io.wlen)
     ensures e == nil ==> n >= 0
-  modifies ghost(io.wdata), ghost(io.wlen), ghost(cbcount), ghost(cbend)
+  modifies ghost(io.wdata), ghost(io.wlen), ghost(io.rpos), ghost(cbcount), ghost(cbend)
   ghost after call WriteCollection#writeCallback: cbcount = r0
   ghost after call WriteCollection#writeCallback: cbend = sel(io.wlen, writer)
   -- the count the callback reported sits where the collection starts ...
